@@ -279,11 +279,12 @@ func judge(rep *mon.Reporter, spec *gspec.GraphSpec, in gspec.V, os []optSpec, r
 	wit := map[string]any{"spec": spec, "input": in, "options": os, "how": how}
 	if mustFail {
 		if badOwner != "" && !res.out.Failed() {
-			// a designation into a nested graph is only interpreted when that graph runs
+			// "designating an unknown node, a path below a non-graph node, or an option of the wrong type
+			// is an error" — of the call, whether or not the nested graph the path leads into gets to run
 			owner := badOwner[strings.LastIndexByte(badOwner, '/')+1:]
 			if ref := gspec.EvalGraph(spec, in, nil); len(ref.SubIn[owner]) == 0 {
-				rep.Count("invalid_nested_designation_in_graph_that_did_not_run", 1)
-				return true
+				rep.Violation(ID+"/invalid-designation-accepted/"+why+"/in-nested-graph-that-did-not-run", fmt.Sprintf("the call designates an option invalidly (%s, inside nested graph %s, which no branch selected in this run) but ran and returned %s\noptions: %+v", why, badOwner, gspec.Canon(res.out.Out), os), wit)
+				return false
 			}
 		}
 		if !res.out.Failed() {
